@@ -233,15 +233,17 @@ def check(case, ctx):
                 src = sorted(n for n in c.nodes() if c.type(n) in G.ALL_GATES + ["input"])
                 if pin not in c and src:
                     c.add(pin, "buf", fanin=src[0], output=True)
-                    psnap = snapshot(c)
+                    before_probe = Net.of(c)
                     bbp = cg.BlackBox(f"bb_child{ci}", ins, outs)
                     okp, rp = ctx.call(c.add_blackbox, bbp, name, dict(op["connections"]))
                     ctx.count("rejected_call_probe")
                     if okp or not isinstance(rp, ValueError):
                         ctx.violation("name_clash_accepted", f"{what}: instance pin name {pin!r} already used by a node, call gave {rp!r}")
                         return
-                    if snapshot(c) != psnap:
-                        ctx.violation("rejected_call_changed_parent", f"{what}: the rejected call changed the parent: {snapshot_diff(psnap, snapshot(c))}")
+                    pn = Net.of(c)
+                    lost_nodes = [n for n in before_probe.types if pn.types.get(n) != before_probe.types[n] or (n in pn.outputs) != (n in before_probe.outputs)]
+                    if lost_nodes or before_probe.edges() != pn.edges() or pn.bbs != before_probe.bbs:
+                        ctx.violation("rejected_call_changed_parent", f"{what}: the rejected call changed pre-existing nodes/edges: nodes {lost_nodes[:4]} edges lost {sorted(before_probe.edges() - pn.edges())[:3]} added {sorted(pn.edges() - before_probe.edges())[:3]}")
                         return
                     c.remove(pin)
                     before_net = Net.of(c)
